@@ -511,6 +511,11 @@ def load_average(
         # single-channel or multi-channel image. For multi-channel, it returns
         # noise_sd for each channel
         noise_sd = (std_image / mean_image).mean(['x', 'y', 'z'])
+        if noise_sd.ndim == 0:
+            # a single channel has a single noise level: a plain number,
+            # like a noise_sd given by the user (a 0-d array is written to
+            # file in a form load() cannot read back)
+            noise_sd = float(noise_sd)
 
     # copy metadata from refimg
     if refimg is not None:
